@@ -255,8 +255,42 @@ def unbounded_linear(wj):
     return out
 
 
+def unbounded_plate_models(wj):
+    """(feature index, model index) of oceanic `plate model`s whose max depth is not bounded everywhere: absent, or a value-at-points list that neither has an entry without
+    points (which sets every corner) nor lists every polygon corner - the remaining corners keep the default `DBL_MAX`, the plate thickness is the surface's maximum"""
+    out = []
+    for fi, f in enumerate((wj or {}).get("features", [])):
+        if f.get("model") != "oceanic plate":
+            continue
+        for mi, m in enumerate(f.get("temperature models", []) or []):
+            if m.get("model") in ("plate model", "plate model constant age"):
+                md = m.get("max depth")
+                if isinstance(md, (int, float)):
+                    continue
+                if isinstance(md, list):
+                    if any(isinstance(e, list) and len(e) == 1 for e in md):
+                        continue
+                    listed = [tuple(p) for e in md if isinstance(e, list) and len(e) > 1 for p in e[1]]
+                    if all(tuple(c) in listed for c in f.get("coordinates", [])):
+                        continue
+                out.append((fi, mi))
+    return out
+
+
 def diagnose(wj, cmd, loc):
     """name the cause of a non-finite answer where it is a recorded one; otherwise the location class"""
+    if wj is not None and cmd.split()[0] in ("q3", "q2", "t3", "t2") and unbounded_plate_models(wj):
+        # confirm: with a bounded plate thickness the same query answers with finite numbers
+        w2 = copy.deepcopy(wj)
+        for fi, mi in unbounded_plate_models(wj):
+            w2["features"][fi]["temperature models"][mi]["max depth"] = 200e3
+        path = os.path.join(proto.workdir("C13"), "diag.wb")
+        json.dump(w2, open(path, "w"))
+        rc, out, err = proto.run_harness(["world w %s 3" % path, cmd])
+        if rc == 0 and len(out) == 2:
+            a = parse_answer(out[1])
+            if a[0] == "ok" and all(math.isfinite(v) for v in a[1]):
+                return "degenerate-parameter:plate-model-unbounded-max-depth"
     if wj is not None and cmd.split()[0] in ("q3", "q2", "t3", "t2") and unbounded_linear(wj):
         # confirm: the world without those linear models answers with finite numbers
         w2 = copy.deepcopy(wj)
